@@ -2,7 +2,7 @@
    Model: Model/FS.v - every ReadFile / FindWithPrefixAndSuffix / WriteFile call has a number; a fault
    schedule maps call numbers to faults (error without effect; for writes also error after a prefix was
    written); a file that does not exist is a read RESULT, not a fault. *)
-From Gopar Require Import Model.Base Model.CRC Model.GoPath Model.FS Model.Par2 Proofs.Par2Facts Proofs.Par2Faults.
+From Gopar Require Import Model.Base Model.CRC Model.GoPath Model.FS Model.Par2 Model.Par1 Proofs.Par2Facts Proofs.Par2Faults Proofs.Par1Safety.
 Open Scope N_scope.
 
 (* REPORTED: an operation that returns success was not hit by any scheduled fault, i.e. if any fault is hit
@@ -49,3 +49,18 @@ Theorem C18_verify_rerun : forall md5 ix fs sched,
   par2_verify md5 ix (io_init (io_fs (snd (par2_verify md5 ix (io_init fs sched)))) []) = par2_verify md5 ix (io_init fs []).
 Proof. intros. rewrite verify_pure. reflexivity. Qed.
 Print Assumptions C18_verify_rerun.
+
+(* PAR1: success means no fault was hit; only written paths change *)
+Theorem C18_par1_verify_reported : forall md5 ix all st c st', par1_verify md5 ix all st = (Ok c, st') -> no_fault_between st st'.
+Proof. exact par1_verify_ok_no_fault. Qed.
+Print Assumptions C18_par1_verify_reported.
+
+Theorem C18_par1_repair_reported : forall md5 ix dbl st rp st', par1_repair md5 ix dbl st = ((Ok tt, rp), st') -> no_fault_between st st'.
+Proof. exact par1_repair_ok_no_fault. Qed.
+Print Assumptions C18_par1_repair_reported.
+
+Theorem C18_par1_repair_untouched : forall md5 ix dbl fs sched q,
+  let st' := snd (par1_repair md5 ix dbl (io_init fs sched)) in
+  ~ In q (written_paths (io_trace st')) -> fs_lookup (io_fs st') q = fs_lookup fs q.
+Proof. exact par1_repair_touches_only_written. Qed.
+Print Assumptions C18_par1_repair_untouched.
